@@ -930,13 +930,17 @@ func CheckTypedReadback(rep Reporter, eng Engine, ts *rs.TypeSystem, t *rs.Type,
 // out next, or at the map's Finish — and after a refusal that came before Finish the remaining entries go in
 // and the node reads as if the refused call had not happened.
 func CheckRejectedKey(rep Reporter, eng Engine, ts *rs.TypeSystem, t *rs.Type, tv model.Val, reprLevel bool, rng *fw.RNG) {
-	if t.Kind != "map" || len(tv.M) == 0 {
+	isStruct := t.Kind == "struct" && (!reprLevel || t.StructRepr == "map")
+	if (t.Kind != "map" && !isStruct) || len(tv.M) == 0 {
 		return
 	}
 	typed, reprP := eng.Proto(t.Name)
 	proto, level := typed, "type-level"
 	in := ts.TypeInput(t, tv)
-	kt, vt := ts.T(t.KeyType), ts.T(t.ValueType)
+	var kt, vt *rs.Type
+	if !isStruct {
+		kt, vt = ts.T(t.KeyType), ts.T(t.ValueType)
+	}
 	if reprLevel {
 		r, err := ts.ReprOf(t, tv)
 		if err != nil || reprP == nil {
@@ -944,12 +948,26 @@ func CheckRejectedKey(rep Reporter, eng Engine, ts *rs.TypeSystem, t *rs.Type, t
 		}
 		proto, level, in, kt, vt = reprP, "representation-level", r, nil, nil
 	}
-	if proto == nil {
+	if proto == nil || len(in.M) == 0 {
 		return
 	}
 	keyForm := "string"
 	if kt != nil && kt.Kind != "string" && kt.Kind != "enum" {
 		keyForm = "recursive-" + kt.Kind
+	}
+	if isStruct {
+		keyForm = "field"
+	}
+	// the type of the value under key k (structs: the field's; representation level: untyped assembly)
+	valueType := func(k string) *rs.Type {
+		if isStruct && !reprLevel {
+			for _, f := range t.Fields {
+				if f.Name == k {
+					return ts.T(f.Type)
+				}
+			}
+		}
+		return vt
 	}
 	sig := eng.Name() + ":" + level + ":" + keyForm
 	dupAt := 1 + rng.Intn(len(in.M))
@@ -958,7 +976,7 @@ func CheckRejectedKey(rep Reporter, eng Engine, ts *rs.TypeSystem, t *rs.Type, t
 		return fmt.Sprintf("engine %s, %s builder of %s, repeated key %q injected before entry %d of %s", eng.Name(), level, t.Name, dup.K, dupAt, clip(in.Dump(), 500))
 	}
 	putKey := func(ka datamodel.NodeAssembler, k string) error {
-		if keyForm == "string" {
+		if keyForm == "string" || keyForm == "field" {
 			return ka.AssignString(k)
 		}
 		kv, perr := ts.ParseRepr(kt, model.String(k))
@@ -991,7 +1009,7 @@ func CheckRejectedKey(rep Reporter, eng Engine, ts *rs.TypeSystem, t *rs.Type, t
 			if err := putKey(ma.AssembleKey(), e.K); err != nil {
 				return err
 			}
-			return assembleTyped(ma.AssembleValue(), ts, vt, e.V)
+			return assembleTyped(ma.AssembleValue(), ts, valueType(e.K), e.V)
 		}
 		for i := 0; i <= len(in.M); i++ {
 			if i == dupAt {
@@ -1003,7 +1021,7 @@ func CheckRejectedKey(rep Reporter, eng Engine, ts *rs.TypeSystem, t *rs.Type, t
 					failure = "the repeated key was refused with another error: " + err.Error()
 					return
 				default:
-					verr := assembleTyped(ma.AssembleValue(), ts, vt, dup.V)
+					verr := assembleTyped(ma.AssembleValue(), ts, valueType(dup.K), dup.V)
 					switch {
 					case verr != nil && isRepeated(verr):
 						stage = "value"
@@ -1045,6 +1063,12 @@ func CheckRejectedKey(rep Reporter, eng Engine, ts *rs.TypeSystem, t *rs.Type, t
 		return
 	}
 	rep.Count("rejected_key_at_"+stage, 1)
+	if stage != "key" && (keyForm == "string" || keyForm == "field") {
+		// the contract: the assembler yielded by AssembleKey reports the repeat; only keys assembled
+		// recursively may be reported later
+		rep.Deviate("C12:typed-map:repeated-key-reported-late:"+sig, fmt.Sprintf("the key assembler accepted the repeated key; the error only came from the %s\n%s", stage, ctx()))
+		return
+	}
 	want := tv
 	got := ReadTyped(node)
 	if reprLevel {
@@ -1130,6 +1154,76 @@ func MutatedDecodes(rep Reporter, name string, ts *rs.TypeSystem, t *rs.Type, p 
 						obs.ReadOut(repr(n), obs.Options{Typed: true, NoWrongKindProbes: true, Light: true})
 					})
 				}
+			}
+		}
+	}
+}
+
+// CheckOtherLevelNames: names that belong to the OTHER level must not work at the representation level. For a
+// keyed union the member's type name is not a key of the representation unless it is also its discriminant;
+// for a map-represented struct the type-level name of a renamed field is not a key. The representation
+// builder must refuse them and the representation node must not resolve them.
+func CheckOtherLevelNames(rep Reporter, eng Engine, ts *rs.TypeSystem, t *rs.Type, tv model.Val) {
+	typed, reprP := eng.Proto(t.Name)
+	if typed == nil || reprP == nil {
+		return
+	}
+	rv, err := ts.ReprOf(t, tv)
+	if err != nil {
+		return
+	}
+	sig := eng.Name() + ":" + t.Kind + reprName(t)
+	ctx := func() string { return fmt.Sprintf("engine %s, type %s, value %s", eng.Name(), t.Name, clip(tv.Dump(), 400)) }
+	// the representation node of the valid value
+	o := Feed(reprP, rv)
+	if !o.Accepted {
+		return
+	}
+	rn := repr(o.Node)
+	mustMiss := func(name string) {
+		var child datamodel.Node
+		var lerr error
+		func() {
+			defer func() {
+				if r := recover(); r != nil {
+					lerr = fmt.Errorf("panic: %v", r)
+				}
+			}()
+			child, lerr = rn.LookupByString(name)
+		}()
+		rep.Count("other_level_name_lookups", 1)
+		if lerr == nil && child != nil && !child.IsAbsent() {
+			rep.Deviate("C08:representation-resolves-type-level-name:"+sig, fmt.Sprintf("the representation node answers LookupByString(%q), a type-level name that is not a key of the representation %s\n%s", name, clip(rv.Dump(), 300), ctx()))
+		}
+	}
+	switch {
+	case t.Kind == "union" && t.UnionRepr == "keyed":
+		member := tv.M[0].K
+		if t.Discr[member] == member {
+			return
+		}
+		for _, d := range t.Discr {
+			if d == member {
+				return // the name is some member's discriminant: it IS a key
+			}
+		}
+		mustMiss(member)
+		in := model.Map(model.E(member, rv.M[0].V))
+		fo := Feed(reprP, in)
+		rep.Count("other_level_name_feeds", 1)
+		if fo.Panic != "" {
+			rep.Deviate("C09:panic:"+eng.Name()+":representation-level:"+t.Kind+reprName(t), fmt.Sprintf("feeding the member's type name as key panicked: %s\n%s", clip(fo.Panic, 800), ctx()))
+		} else if fo.Accepted {
+			rep.Deviate("C09:accepts-nonconforming:"+eng.Name()+":representation-level:"+t.Kind+reprName(t)+":member_type_name_instead_of_discriminant", fmt.Sprintf("the representation builder accepted %s: %q is the member's type name, its discriminant is %q\n%s", clip(in.Dump(), 300), member, t.Discr[member], ctx()))
+		}
+	case t.Kind == "struct" && t.StructRepr == "map":
+		serials := map[string]bool{}
+		for _, f := range t.Fields {
+			serials[t.Serial(f.Name)] = true
+		}
+		for _, f := range t.Fields {
+			if s := t.Serial(f.Name); s != f.Name && !serials[f.Name] {
+				mustMiss(f.Name)
 			}
 		}
 	}
